@@ -305,7 +305,15 @@ func (en *Engine) checkReturn(s *State, sc0 *specCtx, fc *FuncContract, fn *ssa.
 	}
 	for i, e := range fc.Ensures {
 		g := sc.evalBool(e.Expr)
-		o := en.addObl(s, "post", g, fmt.Sprintf("postcondition #%d: %s", i+1, e.Src), e.Line)
+		path := ""
+		if n := len(s.trace); n > 0 {
+			k := n - 4
+			if k < 0 {
+				k = 0
+			}
+			path = " {path: " + strings.Join(s.trace[k:], "; ") + "}"
+		}
+		o := en.addObl(s, "post", g, fmt.Sprintf("postcondition #%d: %s%s", i+1, e.Src, path), e.Line)
 		o.Alg = true
 	}
 	if fc.HasMod {
